@@ -12,6 +12,7 @@ func runExtract(repo, outDir, factsFile string) {
 	writePathGrammar(repo, outDir)
 	writePipeline(repo, outDir, facts)
 	writeMilestones(repo, outDir, facts)
+	writeLevels(repo, outDir, facts)
 	writeCliFacts(repo, outDir, facts)
 	writeInventories(repo, outDir, facts)
 	kw, bi, deny := engineTables()
